@@ -85,7 +85,7 @@ impl Scenario for CryptSc {
         p.set("scheme", ((index / 2) % 3) as i64);
         p.set("key_class", x.below(6) as i64);
         p.set("len", enc_len(&mut x, index / 6, tier == Tier::Thorough) as i64);
-        p.set("codec", x.below(6) as i64);
+        p.set("codec", x.below(STD_CODECS.len() as u64) as i64);
         let n = x.range(2, 6) as i64;
         p.set("n", n);
         p.set("t", x.range(2, n as u64) as i64);
@@ -237,7 +237,7 @@ fn sc_roundtrip(plan: &Plan, lib: &dyn Lib, rec: &mut Rec) {
     let Some(a) = party(rec, lib, g, plan.get("key_class") as u64, plan.seed) else { return };
     let Some(b) = party(rec, lib, g, 5, plan.seed ^ 0xABCD) else { return };
     let msg = msg_of(plan, &mut x);
-    let codec = STD_CODECS[plan.get("codec") as usize % 6];
+    let codec = STD_CODECS[plan.get("codec") as usize % STD_CODECS.len()];
     let (enc, recip, other) = (0usize, 1usize, 2usize);
     let mut c = Courier::new(plan.seed, 3);
     install_faults(&mut c, &plan.faults);
